@@ -276,10 +276,10 @@ class DirichletOperator(MCMCOperator):
 
     @MCMCOperator.adaptable_parameter.getter
     def adaptable_parameter(self) -> float:
-        return math.log(self._scaler)
+        return -math.log(self._scaler)
 
     def set_adaptable_parameter(self, value: float) -> None:
-        self._scaler = math.exp(value)
+        self._scaler = math.exp(-value)
 
     def _step(self) -> Tensor:
         old_values = self.parameters[0].tensor
